@@ -1045,4 +1045,140 @@ theorem mapC_neutralize_NF (ty : BinOp) (drop : Bool) (f : Arg → Arg) (hf : Ho
 
 end
 
+/-! ## the two transformations of the holder: `*lhs_val = n` and the splice -/
+
+section
+variable {isReg : Bytes → Bool}
+
+theorem family_not_mod {ty op : BinOp}
+    (h : (chainOp op = true ∧ sameFam ty op = true) ∨ (op = .div ∧ ty = .div)) : op ≠ .mod ∧ mergeable op = true := by
+  rcases h with ⟨h1, _⟩ | ⟨rfl, _⟩
+  · exact ⟨chainOp_ne_mod h1, chainOp_mergeable h1⟩
+  · exact ⟨(by intro e; cases e), rfl⟩
+
+theorem setH_holderOK (ty : BinOp) (n : Int) : HolderOK isReg ty false (setH n) := by
+  intro op l r ht hc hfam c h₂ he
+  obtain ⟨hl, hr, hfix⟩ := NF_bin_inv ht
+  obtain ⟨_, _, hlr, _, hb, _⟩ := lfix_bin hfix
+  obtain ⟨hnm, hmg⟩ := family_not_mod hfam
+  have hbf := hb hmg
+  cases hcl : cval l with
+  | some a =>
+    have hir : isC r = false := by
+      cases hx : isC r
+      · rfl
+      · exact (hlr ⟨cval_some_isC hcl, hx⟩).elim
+    simp only [setH, hcl] at he
+    obtain ⟨c1, x', c2, y', c3, e1, e2, e3⟩ := neutralize_bin_ok he
+    simp only [neutralize, Res.ok.injEq, Prod.mk.injEq] at e1
+    obtain ⟨_, rfl⟩ := e1
+    rw [NF_neutralize hr] at e2
+    simp only [Res.ok.injEq, Prod.mk.injEq] at e2
+    obtain ⟨_, rfl⟩ := e2
+    have hmr : (mergeR op r).isFound = false := by
+      unfold bothFound at hbf
+      rw [mergeL_isFound] at hbf
+      simpa [fnd, cval_some_isC hcl] using hbf
+    have hnr := neutralizeRaw_bin_NF (isReg := isReg) (l := .const n) trivial hr (fun ⟨_, q⟩ => by rw [hir] at q; cases q)
+      (fun _ => by unfold bothFound; rw [hmr]; simp) (fun e => absurd e hnm) e3
+    have hnb : nb (.bin op (.const n) r) = true :=
+      nb_bin.2 ⟨rfl, NF_nb hr, fun ⟨_, q⟩ => by rw [hir] at q; cases q⟩
+    exact ⟨hnr.1, hnr.2, (neutralizeRaw_nb hnb e3).2, fun hd => by cases hd⟩
+  | none =>
+    have hil : isC l = false := cval_none_iff.1 hcl
+    have hcr : isC r = true := by
+      rcases hc with h | h
+      · rw [hil] at h; cases h
+      · exact h
+    simp only [setH, hcl] at he
+    obtain ⟨c1, x', c2, y', c3, e1, e2, e3⟩ := neutralize_bin_ok he
+    rw [NF_neutralize hl] at e1
+    simp only [Res.ok.injEq, Prod.mk.injEq] at e1
+    obtain ⟨_, rfl⟩ := e1
+    simp only [neutralize, Res.ok.injEq, Prod.mk.injEq] at e2
+    obtain ⟨_, rfl⟩ := e2
+    have hml : (mergeL op l).isFound = false := by
+      unfold bothFound at hbf
+      have : (mergeR op r).isFound = true := by
+        cases r <;> simp [isC, cval] at hcr
+        simp [mergeR, cval, Find.isFound]
+      rw [this] at hbf
+      simpa using hbf
+    have hnr := neutralizeRaw_bin_NF (isReg := isReg) (r := .const n) hl trivial (fun ⟨p, _⟩ => by rw [hil] at p; cases p)
+      (fun _ => by unfold bothFound; rw [hml]; simp) (fun e => absurd e hnm) e3
+    have hnb : nb (.bin op l (.const n)) = true :=
+      nb_bin.2 ⟨NF_nb hl, rfl, fun ⟨p, _⟩ => by rw [hil] at p; cases p⟩
+    exact ⟨hnr.1, hnr.2, (neutralizeRaw_nb hnb e3).2, fun hd => by cases hd⟩
+
+theorem dropH_holderOK (ty : BinOp) (hty : ty ≠ .div) : HolderOK isReg ty true dropH := by
+  intro op l r ht hc hfam c h₂ he
+  obtain ⟨hl, hr, hfix⟩ := NF_bin_inv ht
+  obtain ⟨b1, b2, hlr, _, hb, _⟩ := lfix_bin hfix
+  obtain ⟨hch, hsf⟩ : chainOp op = true ∧ sameFam ty op = true := by
+    rcases hfam with h | ⟨_, h⟩
+    · exact h
+    · exact absurd h hty
+  have hbf := hb (chainOp_mergeable hch)
+  rw [bothFound_eq _ _ _ (chainOp_ne_div hch)] at hbf
+  cases hcl : cval l with
+  | some a =>
+    have hir : isC r = false := by
+      cases hx : isC r
+      · rfl
+      · exact (hlr ⟨cval_some_isC hcl, hx⟩).elim
+    have hfr : fnd ty r = false := by
+      rw [fnd_sameFam hsf]
+      have : fnd op l = true := by simp [fnd, cval_some_isC hcl]
+      rw [this] at hbf; simpa using hbf
+    simp only [dropH, hcl] at he
+    by_cases hs : (op == .sub) = true
+    · simp only [hs, if_true] at he
+      have hop : op = .sub := by simpa using hs
+      subst hop
+      obtain ⟨c1, v₂, c3, e1, e3⟩ := neutralize_neg_ok he
+      rw [NF_neutralize hr] at e1
+      simp only [Res.ok.injEq, Prod.mk.injEq] at e1
+      obtain ⟨_, rfl⟩ := e1
+      have hnr := neutralizeRaw_neg_NF hr hir b2 e3
+      have hadd : additive ty := sameFam_additive hsf (.inr rfl)
+      exact ⟨hnr.1, hnr.2, (neutralizeRaw_neg_nb (NF_nb hr) hir e3).2, fun _ => neutralizeRaw_neg_fnd hr hadd hfr e3⟩
+    · simp only [hs, Bool.false_eq_true, if_false] at he
+      rw [NF_neutralize hr] at he
+      simp only [Res.ok.injEq, Prod.mk.injEq] at he
+      obtain ⟨_, rfl⟩ := he
+      exact ⟨hr, b2, hir, fun _ => hfr⟩
+  | none =>
+    have hil : isC l = false := cval_none_iff.1 hcl
+    have hcr : isC r = true := by
+      rcases hc with h | h
+      · rw [hil] at h; cases h
+      · exact h
+    have hfl : fnd ty l = false := by
+      rw [fnd_sameFam hsf]
+      have : fnd op r = true := by simp [fnd, hcr]
+      rw [this] at hbf; simpa using hbf
+    simp only [dropH, hcl] at he
+    rw [NF_neutralize hl] at he
+    simp only [Res.ok.injEq, Prod.mk.injEq] at he
+    obtain ⟨_, rfl⟩ := he
+    exact ⟨hl, b1, hil, fun _ => hfl⟩
+
+/-- the deep `neutralize` of `setC` on an `NF` tree that holds a chain constant -/
+theorem setC_neutralize_NF (ty : BinOp) (n : Int) {t : Arg} (ht : NF isReg t)
+    (hf : (findC ty t false).isFound = true) {c : Bool} {t₂ : Arg} (he : neutralize (setC ty n t) = .ok (c, t₂)) :
+    NF isReg t₂ ∧ isBad t₂ = false ∧ isC t₂ = false := by
+  rw [setC_eq_mapC] at he
+  obtain ⟨h1, h2, h3, _⟩ := mapC_neutralize_NF ty false (setH n) (setH_holderOK ty n) (fun h => by cases h) t ht hf c t₂ he
+  exact ⟨h1, h2, h3⟩
+
+/-- the deep `neutralize` of `dropC` on an `NF` tree that holds a chain constant: no constant is left in the chain -/
+theorem dropC_neutralize_NF (ty : BinOp) (hty : ty ≠ .div) {t : Arg} (ht : NF isReg t)
+    (hf : (findC ty t false).isFound = true) {c : Bool} {t₂ : Arg} (he : neutralize (dropC ty t) = .ok (c, t₂)) :
+    NF isReg t₂ ∧ isBad t₂ = false ∧ isC t₂ = false ∧ fnd ty t₂ = false := by
+  rw [dropC_eq_mapC ty hty] at he
+  obtain ⟨h1, h2, h3, h4⟩ := mapC_neutralize_NF ty true dropH (dropH_holderOK ty hty) (fun _ => hty) t ht hf c t₂ he
+  exact ⟨h1, h2, h3, h4 rfl⟩
+
+end
+
 end Trion.Simp
